@@ -779,8 +779,8 @@ func (obj *DenseReal32MatrixJointIterator) Index() (int, int) {
   return obj.i, obj.j
 }
 func (obj *DenseReal32MatrixJointIterator) Ok() bool {
-  return !(obj.s1 == nil || obj.s1.GetFloat32() == float32(0)) ||
-         !(obj.s2 == nil || obj.s2.GetFloat32() == float32(0))
+  return !(obj.s1 == nil || isNullScalar(obj.s1)) ||
+         !(obj.s2 == nil || isNullScalar(obj.s2))
 }
 func (obj *DenseReal32MatrixJointIterator) Next() {
 next:
